@@ -308,8 +308,9 @@ def run(ctx):
     fa = prog.fn('addbounce', 'qmail-send.c')
     n = 0
     sites = {}
-    for report in itertools.product((NL, ord('x')), repeat=3):
-        for rlen in (0, 1, 2, 3):
+    RL = ctx.deep(3, 5)
+    for report in itertools.product((NL, ord('x')), repeat=RL):
+        for rlen in range(0, RL + 1):
             H = AddBounceHooks(report[:rlen])
             eng = Engine(db, prog, H)
             eng.run(fa, {})
